@@ -201,3 +201,11 @@ pub fn ppoint_ts_le(v: &Vec<RecordHeader>, ts: u64) -> (r: usize)
         forall|i: int| 0 <= i < r ==> hdr_ts(v@[i]) <= ts,
         forall|i: int| r <= i < v.len() ==> hdr_ts(v@[i]) > ts,
 { unimplemented!() }
+
+// machine arithmetic of the STATISTICS counters (records_count, records_allocated) treated as
+// mathematical: they count objects that exist in memory, so they never approach usize::MAX.
+// Used only where a loop pushes many headers (index regeneration).
+#[verifier::external_body]
+pub proof fn assume_stat_counters_in_range(count: usize, allocated: usize)
+    ensures count < usize::MAX, allocated <= usize::MAX - CAP_DELTA_MAX
+{ }
